@@ -1,6 +1,7 @@
 package props
 
 import (
+	"bytes"
 	"encoding/base64"
 	"fmt"
 	"net/http"
@@ -478,7 +479,7 @@ func ssoBuild(p ssoP) (*world.World, *http.Request, *ssoTruth) {
 	}
 	switch p.XML {
 	case "ill-formed":
-		doc = doc[:len(doc)-3]
+		doc = cutRootEndTag(doc)
 	case "empty-doc":
 		doc = []byte{}
 	}
@@ -691,6 +692,16 @@ func lexStyle(st *xt.Style, lex string) {
 	default:
 		panic("lexStyle: " + lex)
 	}
+}
+
+// cutRootEndTag makes a document ill-formed by cutting it inside the end tag of its root element (whatever follows the root -
+// white space, comments, processing instructions - goes too): the root element is left unclosed.
+func cutRootEndTag(doc []byte) []byte {
+	i := bytes.LastIndex(doc, []byte("</"))
+	if i < 0 {
+		return doc[:len(doc)/2]
+	}
+	return doc[:i+3]
 }
 
 func wrapN(s string, n int) string {
